@@ -15,7 +15,8 @@
         Forall (contiguous gens) (snd (step st gens o)).
     It fails exactly in the full-compaction branch of [Plan] (see [C05_plan_full_contiguous_refuted]);
     [C05_contiguous_partial] is the strongest weakening proved. *)
-From Verif Require Import Base.Prelude Model.C05 Proofs.C05 Proofs.C05_contig Proofs.C05_oracle.
+From Verif Require Import Base.Prelude Model.C05 Proofs.C05 Proofs.C05_contig Proofs.C05_oracle
+  Proofs.C05_full.
 From Coq Require Import Permutation.
 
 (** Every planning call, from every reachable state, on ANY generation list: the returned groups
@@ -118,6 +119,19 @@ Proof.
   - constructor.
 Qed.
 Print Assumptions C05_contiguous_partial.
+
+(** Exact extent of the defect: in its full branch, on a well-formed store, a non-empty answer of
+    [Plan] is contiguous IF AND ONLY IF the generations the loop keeps ([full_flags]: not in use and
+    not skipped as maxed-out) form a single run false* true* false* of the generation list — i.e. the
+    property fails exactly when a dropped generation lies strictly between two kept ones (this is
+    the shape the driver tags with the finding signature plan-full-noncontiguous). *)
+Theorem C05_plan_full_contiguous_iff : forall st gens cold recent,
+  wf_gens gens -> plan_is_full st gens cold = true ->
+  snd (step st gens (OPlan cold recent)) <> [] ->
+  (Forall (contiguous gens) (snd (step st gens (OPlan cold recent)))
+   <-> one_run (full_flags (in_use st) (len gens) gens) = true).
+Proof. exact plan_full_contiguous_iff. Qed.
+Print Assumptions C05_plan_full_contiguous_iff.
 
 (** The judge's boolean oracle is exactly the proposition: on a well-formed generation list a
     duplicate-free group passes [contiguous_b] iff it is [contiguous]. *)
